@@ -126,6 +126,12 @@ pub fn run_points(case: &WriterCase, st: &mut RunStats, check_blobs: bool, check
     st.probe("cloud_with_more_than_65535_points", w.exec.expected.file.pcs.iter().any(|p| p.records > 65_535));
     st.probe("payload_longer_than_65535_bytes", w.exec.expected.blobs.iter().any(|b| b.len() > 65_535));
     st.probe("short_device_transfers", w.disk.short_transfers() > 0);
+    if let Some(at) = case.prog.calls.iter().position(|c| matches!(c, Call::Blob { fail_after: Some(_), .. })) {
+        st.probe("blob_added_after_failed_add_blob", case.prog.calls[at + 1..].iter().any(|c| matches!(c, Call::Blob { fail_after: None, .. } | Call::Img { .. })));
+        if let Some(Call::Blob { fail_after: Some(k), .. }) = case.prog.calls.get(at) {
+            st.set_add("failed_source_bytes_mod_4", (*k % 4) as u64);
+        }
+    }
     st.absorb_ctx(&w.ctx);
     let mut dg = crate::rng::Digest::new();
     dg.bytes(&w.image);
